@@ -482,6 +482,172 @@ class Body:
                 stack.append(k)
         return blocks
 
+    def reach_between(self, start_bb, removed_edges=(), removed_blocks=()):
+        """Blocks reachable from any (exploded) node of start_bb, without the given edges/blocks."""
+        removed_edges = set(removed_edges)
+        removed_blocks = set(removed_blocks)
+        if not self.ps:
+            seen = {start_bb}
+            stack = [start_bb]
+            while stack:
+                b = stack.pop()
+                for j, (tb, _) in enumerate(self.succ[b]):
+                    if (b, j) in removed_edges or tb in removed_blocks or tb in seen:
+                        continue
+                    seen.add(tb)
+                    stack.append(tb)
+            return seen
+        x = self._x
+        order, adj = x["order"], x["adj"]
+        starts = [i for i, (b, _st) in enumerate(order) if b == start_bb]
+        seen = set(starts)
+        stack = list(starts)
+        blocks = {start_bb}
+        while stack:
+            i = stack.pop()
+            for (k, e) in adj[i]:
+                if e in removed_edges or k in seen or order[k][0] in removed_blocks:
+                    continue
+                seen.add(k)
+                blocks.add(order[k][0])
+                stack.append(k)
+        return blocks
+
+    def is_return_tail(self, tb):
+        """Every path from tb to Return is free of calls and of assignments to the return place."""
+        c = getattr(self, "_tail_cache", None)
+        if c is None:
+            c = self._tail_cache = {}
+        if tb in c:
+            return c[tb]
+        seen = set()
+        stack = [tb]
+        res = True
+        while stack:
+            b = stack.pop()
+            if b in seen:
+                continue
+            seen.add(b)
+            blk = self.blocks[b]
+            if any(st["k"] == "assign" and st["dst"]["l"] == 0 for st in blk["stmts"]):
+                res = False
+                break
+            t = blk["term"]
+            if t is None or t["k"] == "call":
+                res = False
+                break
+            for (nb, _) in self.succ[b]:
+                stack.append(nb)
+        c[tb] = res
+        return res
+
+    def _x_nodes_after_edge(self, edge):
+        """Exploded nodes entered by taking `edge`."""
+        x = self._x
+        out = set()
+        for i, lst in enumerate(x["adj"]):
+            if x["order"][i][0] != edge[0]:
+                continue
+            for (k, e) in lst:
+                if e == edge:
+                    out.add(k)
+        return out
+
+    def _x_closure(self, starts, removed_blocks=()):
+        x = self._x
+        order, adj = x["order"], x["adj"]
+        removed_blocks = set(removed_blocks)
+        seen = set(starts)
+        stack = list(starts)
+        while stack:
+            i = stack.pop()
+            for (k, e) in adj[i]:
+                if k in seen or order[k][0] in removed_blocks:
+                    continue
+                seen.add(k)
+                stack.append(k)
+        return seen
+
+    def continuing_exits(self, loop):
+        """Edges leaving `loop`, other than its exhaustion edges, that are not early `return Err(..)`s.
+        An exit is an early error return iff on every path from its target the return place of the
+        function instance the loop belongs to is assigned an Err (aggregate `Err`, or from_residual)
+        before the path reaches another loop iteration (any Iterator::next), leaves the instance, or
+        returns.  Everything else (break, continue-outer, return Ok(..)) is reported."""
+        exh = set(self.loop_exhaustion_edges(loop))
+        out = []
+        for b in sorted(loop):
+            if b not in self.reach:
+                continue
+            for j, (tb, lab) in enumerate(self.succ[b]):
+                if tb in loop or (b, j) in exh:
+                    continue
+                if not self._is_err_return_path(b, tb, loop):
+                    out.append((b, j))
+        return out
+
+    def _is_err_return_path(self, src, start, loop):
+        ret = self.blocks[src].get("ret_local", 0)
+        inst = self.blocks[src].get("inst", "")
+        seen = set()
+        stack = [start]
+        while stack:
+            b = stack.pop()
+            if b in seen:
+                continue
+            seen.add(b)
+            if b in loop:
+                return False
+            blk = self.blocks[b]
+            if blk.get("inst", "") != inst:
+                return False
+            assigned = None
+            for st in blk["stmts"]:
+                if st["k"] == "assign" and st["dst"]["l"] == ret and not st["dst"]["p"]:
+                    rv = st["rv"]
+                    assigned = "Err" if (rv["k"] == "agg" and rv.get("variant") == "Err") else "other"
+            t = blk["term"]
+            if t is None:
+                return False
+            if t["k"] == "call":
+                n = callee_name(t)
+                if t["dst"]["l"] == ret and not t["dst"]["p"]:
+                    assigned = "Err" if n == "std::ops::FromResidual::from_residual" else "other"
+                elif n == "std::iter::Iterator::next":
+                    return False
+            if assigned == "Err":
+                continue
+            if assigned == "other":
+                return False
+            if t["k"] == "return" or t.get("synthetic") == "return":
+                return False
+            for (nb, _) in self.succ[b]:
+                stack.append(nb)
+        return True
+
+    def loops(self):
+        """{header: natural loop blocks}."""
+        r = getattr(self, "_loops", None)
+        if r is None:
+            r = {}
+            for (e, tb) in self.back_edges():
+                if tb not in r:
+                    r[tb] = self.loop_blocks(tb)
+            self._loops = r
+        return r
+
+    def loop_exhaustion_edges(self, loop):
+        """For a loop driven by Iterator::next: the `None` edges of the driving next() result."""
+        out = []
+        for b in sorted(loop):
+            t = self.blocks[b]["term"]
+            if t and t["k"] == "call" and callee_name(t) in ("std::iter::Iterator::next",):
+                if all(self.dom_plain(b, e[0]) for (e, tb) in self.back_edges() if tb in loop and self.loop_blocks(tb) == loop):
+                    for (e, tb2, f) in self.all_edge_facts():
+                        if f[0] == "variant" and f[2] == "None" and f[1]["l"] == t["dst"]["l"] and not proj_path(f[1]):
+                            out.append(e)
+        return out
+
     # -- terminators ----------------------------------------------------------------------------
     def calls(self, pred=None):
         for i in sorted(self.reach):
